@@ -75,8 +75,9 @@ let () =
       let line = input_line stdin in
       let parts = String.split_on_char ';' line in
       let head, entries = match parts with h :: t -> h, t | [] -> "", [] in
-      let nn = match String.split_on_char ' ' head with
-        | [_; s] -> int_of_string s
+      let kind, nn, npairs = match String.split_on_char ' ' head with
+        | [k; s] -> k, int_of_string s, 0
+        | [k; s; c] -> k, int_of_string s, int_of_string c
         | _ -> failwith "bad case" in
       let tbl : (string, string) Hashtbl.t = Hashtbl.create 65536 in
       List.iter (fun e ->
@@ -97,8 +98,73 @@ let () =
       let ksub (k : nat) (kk : nat) (gens : nat list list) : n list =
         let key = Printf.sprintf "K%d:%d:%s" (int_of_nat k) (int_of_nat kk) (gens_string gens) in
         List.map n_of_int (ints (find key)) in
+      (* which clause of the per-graph check fails on g ("" = none) *)
+      let clause_of (g : vgraph) : string =
+        match get_aut canon g false N0 with
+        | None -> "panic"
+        | Some c ->
+          if not (check_perm g c) then "perm"
+          else if not (check_orb g c) then "orbits-generators"
+          else if not (check_ksub ksub g c) then "ksub"
+          else if not (check_early canon (vbs_mixed g) g c) then "early"
+          else "" in
+      if kind = "spec" then begin
+        (* sampled graphs: P<i>=<edges g>|<edges h>|<q>, h = g relabelled by q.  The per-graph
+           clauses of canon_spec on both (check_graph, sound by check_graph_sound) and equality of
+           their canonical forms (label_pair_check, sound by label_pair_check_sound). *)
+        let graph_of (es : string) : vgraph =
+          vg_of_edges (nat_of_int nn)
+            (List.init (String.length es) (fun i -> if es.[i] = '1' then n_of_int 1 else N0)) in
+        let verdict = ref "ok" in
+        (try
+           for i = 0 to npairs - 1 do
+             if !verdict = "ok" then begin
+               match String.split_on_char '|' (find (Printf.sprintf "P%d" i)) with
+               | [eg; eh; q] ->
+                 let g = graph_of eg and h = graph_of eh in
+                 let qq = List.map nat_of_int (ints q) in
+                 if not (check_graph canon ksub (vbs_mixed g) g) then
+                   verdict := Printf.sprintf "FAIL:%s:k=%d:e=%s" (clause_of g) nn eg
+                 else if not (check_graph canon ksub (vbs_mixed h) h) then
+                   verdict := Printf.sprintf "FAIL:%s:k=%d:e=%s" (clause_of h) nn eh
+                 else if not (label_pair_check canon g h qq) then
+                   verdict := Printf.sprintf "FAIL:label:k=%d:e=%s:q=%s" nn eg q
+               | _ -> failwith "bad pair"
+             end
+           done
+         with Missing key -> verdict := "model-missing:" ^ key);
+        print_endline (Printf.sprintf "spec k=%d pairs=%d | spec:%s" nn npairs !verdict)
+      end else begin
       let pj = Buffer.create 4096 and st = Buffer.create 4096 in
       Buffer.add_string pj (Printf.sprintf "cosim n=%d" nn);
+      (* the hypothesis of the orderly-generation theorem, evaluated on the table: check_upto
+         (Search/OrderlyInstCheckModel.v) = true implies canon_spec canon ksub nn for nn <= 6 and
+         canon_spec with the early-exit clause restricted to the tabulated viable sets above
+         (Search/OrderlyInstCheck.v: check_upto_sound, check_upto_sound_dom).  On a failure the
+         clauses are evaluated one by one to name the first graph and clause that fail. *)
+      let spec_verdict =
+        try
+          if check_upto canon ksub vbs_mixed (nat_of_int nn) then "ok"
+          else begin
+            let found = ref "" in
+            for k = 1 to nn do
+              if !found = "" then begin
+                let gs = all_graphs (nat_of_int k) in
+                List.iter (fun g ->
+                    if !found = "" then begin
+                      let (((_, _), _), e) = g in
+                      let es = String.concat "" (List.map (fun b -> string_of_int (int_of_n b)) e) in
+                      let clause = clause_of g in
+                      if clause <> "" then found := Printf.sprintf "FAIL:%s:k=%d:e=%s" clause k es
+                    end) gs;
+                if !found = "" && not (label_check canon (nat_of_int k) gs) then
+                  found := Printf.sprintf "FAIL:label:k=%d" k
+              end
+            done;
+            if !found = "" then "FAIL:unknown" else !found
+          end
+        with Missing key -> "model-missing:" ^ key in
+      Buffer.add_string pj (" | spec:" ^ spec_verdict);
       List.iter (fun m ->
           List.iter (fun (p, pl) ->
               let pre = if pl = "pre" || pl = "both" then pred_of p else p_none in
@@ -124,5 +190,6 @@ let () =
               if !bad <> "" then Buffer.add_string pj !bad
               else Buffer.add_string pj (join_ints (List.sort compare !ids))) pred_places) moduli;
       print_endline (Buffer.contents pj ^ " ##" ^ Buffer.contents st)
+      end
     done
   with End_of_file -> ()
